@@ -172,11 +172,11 @@ Proof. intros []; reflexivity. Qed.
 
 Theorem parse_payload_ser : forall a, aframe_ok a ->
   let '(t, fl, sid, p) := aframe_parts a in
-  parse_payload true (mkFh (len p) t fl sid) p = HOk (body_of a).
+  parse_payload psw_ok (mkFh (len p) t fl sid) p = HOk (body_of a).
 Proof.
   intros a Hok. destruct a as [sid es data pad | sid es eh pr frag pad | sid pr | sid code | ack ss
                               | sid promised eh frag pad | ack data | last code debug | sid inc | sid eh frag | typ flags sid payload];
-    cbn [aframe_parts body_of aframe_ok] in *; unfold parse_payload; cbn [fh_type fh_sid fh_flags fh_len].
+    cbn [aframe_parts body_of aframe_ok] in *; unfold parse_payload, psw_ok; cbn [fh_type fh_sid fh_flags fh_len sw_empty sw_data_gt sw_push_gt].
   - (* DATA *)
     destruct Hok as [[Hs1 Hs2] Hp]. change (T_DATA =? T_DATA) with true. cbv iota.
     assert (E : (sid =? 0) = false) by lia. rewrite E. rewrite flag_data_padded.
@@ -301,7 +301,7 @@ Theorem frame_roundtrip : forall a last last' mx rest,
   aframe_ok a ->
   (let '(t, fl, sid, p) := aframe_parts a in len p < 16777216 /\ len p <= mx) ->
   check_order last (f_hdr (frame_of a)) = HOk last' ->
-  read_raw true last mx (ser_frame a ++ rest) 0 = WFrame (frame_of a) (len (ser_frame a)) last'.
+  read_raw psw_ok last mx (ser_frame a ++ rest) 0 = WFrame (frame_of a) (len (ser_frame a)) last'.
 Proof.
   intros a last last' mx rest Hok Hlen Hord.
   pose proof (parse_payload_ser a Hok) as Hpp. pose proof (aframe_sid_bound a Hok) as Hsid.
@@ -309,4 +309,20 @@ Proof.
   destruct (aframe_parts a) as [[[t fl] sid] p]. destruct Hlen as [Hl Hm]. cbn [f_hdr] in Hord.
   rewrite read_raw_ser by assumption. rewrite Hpp, Hord.
   unfold ser_frame_raw. rewrite len_app, len_ser_hdr. reflexivity.
+Qed.
+
+(* the `>=` variant of the DATA pad check rejects every padded DATA frame that carries no data *)
+Lemma data_pad_ge_refuted : forall sid es k, sid_ok sid -> k < 256 ->
+  parse_payload (mkPsw true false true) (mkFh (1 + k) T_DATA (b2n es 1 + 8) sid) ([k] ++ repeat 0 (N.to_nat k)) = HErr EProtocol /\
+  parse_payload psw_ok (mkFh (1 + k) T_DATA (b2n es 1 + 8) sid) ([k] ++ repeat 0 (N.to_nat k)) = HOk (BData []).
+Proof.
+  intros sid es k [Hs1 Hs2] Hk. unfold parse_payload, psw_ok. cbn [fh_type fh_sid fh_flags fh_len sw_empty sw_data_gt sw_push_gt].
+  change (T_DATA =? T_DATA) with true. cbv iota.
+  assert (E : (sid =? 0) = false) by lia. rewrite E.
+  assert (Ef : flag (b2n es 1 + 8) F_PADDED = true) by (destruct es; reflexivity). rewrite Ef.
+  cbn [app]. rewrite len_repeat.
+  assert (E1 : (k <=? k) = true) by lia. assert (E2 : (k <? k) = false) by lia. rewrite E1, E2.
+  split; [reflexivity|].
+  replace (repeat 0 (N.to_nat k)) with (@nil N ++ repeat 0 (N.to_nat k)) by reflexivity.
+  rewrite drop_last_suffix. reflexivity.
 Qed.
